@@ -98,6 +98,11 @@ ReqCrlOk(a, o) ==
   <<"C01.fail_yields_err_and_no_artefact", ~a.signerFails>>
   }
 
+(* an independent revocation checker reports a certificate as revoked iff its serial number (as an INTEGER) is listed *)
+ReqRevocation(a, o) == {
+  (* k = "na": the checker cannot read this CRL for a documented reason of its own (webpki: dates before 1970) *)
+  <<"C08.revoked_iff_serial_listed", o.k = "na" \/ (o.k = "ok" /\ (o.revoked <=> \E i \in DOMAIN a.listed : StripZeros(a.listed[i]) = StripZeros(a.certSerial)))>> }
+
 (* ---- implementation-shaped guards (crl.rs signed_by), variants for the self-test ---- *)
 ImplCrlRefuses(a, variant) ==
   \/ (IF variant = "D8-compare-before-truncation"
